@@ -318,15 +318,35 @@ func (b *fakeBroker) connects() int {
 
 func (b *fakeBroker) close() { b.ln.Close() }
 
-// freeUDPPort returns a loopback UDP port that was free a moment ago.
+var (
+	portMu   sync.Mutex
+	portNext int
+)
+
+// freeUDPPort returns a loopback UDP port for a tool that has to bind it itself. Ports are taken
+// from below the range the kernel uses for automatically assigned ports (which the harness's own
+// fake gateways and brokers get), starting at a per-process offset, each one only once, so that
+// neither another case of this process nor an ephemeral port can take it in the meantime.
 func freeUDPPort() (int, error) {
-	pc, err := net.ListenPacket("udp", "127.0.0.1:0")
-	if err != nil {
-		return 0, err
+	portMu.Lock()
+	defer portMu.Unlock()
+	if portNext == 0 {
+		portNext = 20000 + (os.Getpid()*37)%9000
 	}
-	p := pc.LocalAddr().(*net.UDPAddr).Port
-	pc.Close()
-	return p, nil
+	for i := 0; i < 2000; i++ {
+		p := portNext
+		portNext++
+		if portNext >= 32000 {
+			portNext = 20000
+		}
+		pc, err := net.ListenPacket("udp", fmt.Sprintf("127.0.0.1:%d", p))
+		if err != nil {
+			continue
+		}
+		pc.Close()
+		return p, nil
+	}
+	return 0, fmt.Errorf("no free loopback UDP port")
 }
 
 // udpPortBound reports whether somebody holds the loopback UDP port (we cannot bind it).
